@@ -74,12 +74,13 @@ func ruleOwnerFields(r *Report) {
 		scope := closuresOf(fn)
 		for i := 0; i < st.NumFields(); i++ {
 			f := st.Field(i)
+			fname := refField(rt, i)
 			isSlice, ok := closableFieldType(f.Type())
 			if !ok {
 				continue
 			}
-			key := fmt.Sprintf("%s/%s.%s", rule, owner, f.Name())
-			if why, ex := ownerFieldExempt[owner+"."+f.Name()]; ex {
+			key := fmt.Sprintf("%s/%s.%s", rule, owner, fname)
+			if why, ex := ownerFieldExempt[owner+"."+fname]; ex {
 				r.OK(rule, key, fn.Pos(), "exempt (named): "+why)
 				continue
 			}
@@ -102,7 +103,7 @@ func ruleOwnerFields(r *Report) {
 					if name != "Close" || recv == nil {
 						return
 					}
-					if _, fld, _, ok := loadOfField(recv); ok && fld == f.Name() {
+					if _, fld, _, ok := loadOfField(recv); ok && fld == fname {
 						closed = true
 						closeSites = append(closeSites, s)
 					}
@@ -110,7 +111,7 @@ func ruleOwnerFields(r *Report) {
 						// element of the field slice (range loop)
 						if u, ok := recv.(*ssa.UnOp); ok && u.Op == token.MUL {
 							if ia, ok := u.X.(*ssa.IndexAddr); ok {
-								if _, fld, _, ok := loadOfField(ia.X); ok && fld == f.Name() {
+								if _, fld, _, ok := loadOfField(ia.X); ok && fld == fname {
 									closed = true
 								}
 							}
@@ -118,14 +119,14 @@ func ruleOwnerFields(r *Report) {
 					}
 				})
 			}
-			if closed && !isSlice && closedOnAllPaths(r.P, fn, closeSites, f.Name()) && !closedOnPaths(r.P, fn, closeSites, f.Name(), true) {
-				r.Bad(rule, key, fn.Pos(), fmt.Sprintf("%s.Close returns an error of one of its own steps (a failed flush, truncate or close of another handle) without closing its field %s: the descriptor stays open although Close was called — and a second Close is refused (exit at %s)", owner, f.Name(), lastOpenExit))
-			} else if closed && !isSlice && !closedOnAllPaths(r.P, fn, closeSites, f.Name()) {
-				r.Bad(rule, key, fn.Pos(), fmt.Sprintf("%s.Close can return without closing its field %s on some path (an early return that is not a nil test of one of the owner's own handles)", owner, f.Name()))
+			if closed && !isSlice && closedOnAllPaths(r.P, fn, closeSites, fname) && !closedOnPaths(r.P, fn, closeSites, fname, true) {
+				r.Bad(rule, key, fn.Pos(), fmt.Sprintf("%s.Close returns an error of one of its own steps (a failed flush, truncate or close of another handle) without closing its field %s: the descriptor stays open although Close was called — and a second Close is refused (exit at %s)", owner, fname, lastOpenExit))
+			} else if closed && !isSlice && !closedOnAllPaths(r.P, fn, closeSites, fname) {
+				r.Bad(rule, key, fn.Pos(), fmt.Sprintf("%s.Close can return without closing its field %s on some path (an early return that is not a nil test of one of the owner's own handles)", owner, fname))
 			} else if closed {
 				r.OK(rule, key, fn.Pos(), "closed by the owner's Close")
 			} else {
-				r.Bad(rule, key, fn.Pos(), fmt.Sprintf("%s.Close never closes its field %s (%s): the handle it owns stays open", owner, f.Name(), f.Type()))
+				r.Bad(rule, key, fn.Pos(), fmt.Sprintf("%s.Close never closes its field %s (%s): the handle it owns stays open", owner, fname, f.Type()))
 			}
 		}
 	}
@@ -241,7 +242,7 @@ func releasedHow(p *Prog, fn *ssa.Function, v ssa.Value) string {
 				}
 				switch a := y.Addr.(type) {
 				case *ssa.FieldAddr:
-					res = "stored into field " + derefStruct(a.X.Type()).Field(a.Field).Name() + " of an owner"
+					res = "stored into field " + refField(a.X.Type(), a.Field) + " of an owner"
 				case *ssa.IndexAddr:
 					// element of a local array (varargs / slice literal) → follow the array's slices
 					if al, ok := a.X.(*ssa.Alloc); ok {
@@ -887,13 +888,14 @@ func ruleOwnerOverwrite(r *Report) {
 		}
 		for i := 0; i < st.NumFields(); i++ {
 			f := st.Field(i)
+			fname := refField(rt, i)
 			if isSlice, ok := closableFieldType(f.Type()); !ok || isSlice {
 				continue
 			}
-			if _, ex := ownerFieldExempt[typeShort(rt)+"."+f.Name()]; ex {
+			if _, ex := ownerFieldExempt[typeShort(rt)+"."+fname]; ex {
 				continue
 			}
-			owners[fieldKey{typeShort(rt), f.Name()}] = true
+			owners[fieldKey{typeShort(rt), fname}] = true
 		}
 	}
 	closesFieldBefore := func(fn *ssa.Function, field string, at Site) bool {
